@@ -857,7 +857,13 @@ impl World {
 
     /// Tear the world down: all node handles must have been dropped by the caller.
     pub fn shutdown(self) {
-        *self.responder.borrow_mut() = None;
+        // the work happens in Drop, so that a panicking scenario also releases the process-global env
+    }
+
+    fn teardown(&self) {
+        if let Ok(mut r) = self.responder.try_borrow_mut() {
+            *r = None;
+        }
         let socks: Vec<SockId> = {
             let mut g = self.sh.lock();
             g.fault = None;
@@ -875,6 +881,12 @@ impl World {
         }
         dht::verif::set_env(None);
         *WORLD_ACTIVE.lock().unwrap_or_else(|e| e.into_inner()) = false;
+    }
+}
+
+impl Drop for World {
+    fn drop(&mut self) {
+        self.teardown();
     }
 }
 
